@@ -251,6 +251,56 @@ def provenance(run, rng, n):
     run.sample({"provenance_case": {"labels": lab.tolist(), "chunks": [list(c) for c in chunks]}})
 
 
+def subset_position_cases(run, rng, n):
+    """subset_to_blocks: the layer it builds must place, at output position (i, j, k, ...), the input block whose index on every
+    axis is the i-th / j-th / k-th SELECTED block of that axis, and announce the chunk sizes of exactly those blocks -
+    including leading (batch) axes that are kept whole and selections that are not contiguous on two axes separated by a full one"""
+    import dask.array as da
+    import numpy as np
+
+    import flox.core as fc
+
+    for _ in range(n):
+        nlab = rng.randint(1, 3)
+        nbatch = rng.choice([0, 0, 1])
+        blk = tuple(rng.randint(1, 3) for _ in range(nlab))
+        bblk = tuple(rng.randint(1, 2) for _ in range(nbatch))
+        chunks = tuple(tuple(rng.randint(1, 3) for _ in range(b)) for b in bblk + blk)
+        arr = da.zeros(tuple(sum(c) for c in chunks), chunks=chunks)
+        per_axis = [sorted(rng.sample(range(b), k=rng.randint(1, b))) for b in blk]
+        if nlab == 3 and rng.random() < 0.5:
+            # non-contiguous selections on the outer axes, the middle axis selected whole
+            blk = (3, blk[1], 3)
+            chunks = chunks[:nbatch] + tuple(tuple(rng.randint(1, 3) for _ in range(b)) for b in blk)
+            arr = da.zeros(tuple(sum(c) for c in chunks), chunks=chunks)
+            per_axis = [[0, 2], list(range(blk[1])), [0, 2]]
+        flat = [int(np.ravel_multi_index(t, blk)) for t in __import__("itertools").product(*per_axis)]
+        rng.shuffle(flat)
+        desc = {"array_chunks": [list(c) for c in chunks], "label_block_grid": list(blk), "batch_axes": nbatch, "flatblocks": flat, "selected_per_axis": per_axis}
+        run.count("subpos|" + str(desc), nlab >= 2 and any(len(p) > 1 for p in per_axis))
+        try:
+            lay = fc.subset_to_blocks(arr, flat, blk)
+        except Exception as e:  # noqa: BLE001
+            run.violation(dict(desc, property="C09", kind=f"subset_to_blocks raised {type(e).__name__}: {str(e)[:100]}"), tag="subpos")
+            continue
+        full_sel = [list(range(b)) for b in bblk] + per_axis
+        want_chunks = tuple(tuple(chunks[ax][i] for i in sel) for ax, sel in enumerate(full_sel))
+        problem = None
+        if tuple(tuple(c) for c in lay.chunks) != want_chunks:
+            problem = {"announced_chunks": [list(c) for c in lay.chunks], "expected_chunks": [list(c) for c in want_chunks]}
+        else:
+            for pos in __import__("itertools").product(*[range(len(s)) for s in full_sel]):
+                task = lay.layer.get((lay.name,) + pos)
+                src = tuple(task[1][1:]) if task is not None else None
+                want_src = tuple(full_sel[ax][i] for ax, i in enumerate(pos))
+                if src != want_src:
+                    problem = {"output_position": list(pos), "reads_input_block": None if src is None else list(src), "should_read_input_block": list(want_src)}
+                    break
+        if problem:
+            run.violation(dict(desc, property="C09", kind="subset_to_blocks wires a cohort's output block to the wrong input block", **problem,
+                               how_to_run="flox.core.subset_to_blocks(dask.array.zeros(shape, chunks=array_chunks), flatblocks, label_block_grid)"), tag="subpos")
+
+
 def normalize_index_cases(run, rng, nmax, nrandom):
     """_normalize_indexes (which blocks feed a cohort): the index it returns must select, on every axis, exactly the
     blocks of the request - ALL non-empty subsets of up to nmax blocks in 1-D, random subsets of 2-D / 3-D block grids"""
@@ -335,6 +385,7 @@ def run(run: C.Run):
     eval_planner(run, coq)
     provenance(run, rng, 1500 if thorough else 150)
     normalize_index_cases(run, rng, 11 if thorough else 9, 3000 if thorough else 400)
+    subset_position_cases(run, rng, 6000 if thorough else 1200)
     if any(not o[1] for o in run.obligations) and not run.violations:
         run.violation({"property": "C09", "kind": "proof obligation / correspondence no longer checks",
                        "failed": P.failed_obligations(run)}, nofail=True, tag="obligation")
